@@ -41,6 +41,7 @@ pub enum Entry {
     RlSmall,
     InnerPastEnd,
     PropLenPastEnd,
+    PayloadFormat,
 }
 
 pub const ALL_ENTRIES: &[Entry] = &[
@@ -76,6 +77,7 @@ pub const ALL_ENTRIES: &[Entry] = &[
     Entry::RlSmall,
     Entry::InnerPastEnd,
     Entry::PropLenPastEnd,
+    Entry::PayloadFormat,
 ];
 
 impl Entry {
@@ -113,6 +115,7 @@ impl Entry {
             Entry::RlSmall => "rl-small",
             Entry::InnerPastEnd => "inner-past-end",
             Entry::PropLenPastEnd => "proplen-past-end",
+            Entry::PayloadFormat => "payloadformat",
         }
     }
 }
@@ -143,6 +146,7 @@ pub enum ExpErr {
     UnexpectedProtocol(u8),
     EmptySubscription,
     InvalidRemainingLength,
+    InvalidPayloadFormat,
 }
 
 pub fn property_id_of(n: u8) -> Option<v5::PropertyId> {
@@ -233,6 +237,7 @@ impl ExpErr {
             ExpErr::InvalidWillProperty(i) => E::InvalidWillProperty(property_id_of(*i)?),
             ExpErr::InvalidPropertyLength(n) => E::InvalidPropertyLength(*n),
             ExpErr::InvalidByteProperty(i, b) => E::InvalidByteProperty(property_id_of(*i)?, *b),
+            ExpErr::InvalidPayloadFormat => E::InvalidPayloadFormat,
             _ => return None,
         })
     }
@@ -563,6 +568,17 @@ pub fn sites(w: &WPacket) -> Vec<Site> {
             v.push(Site { entry: Entry::PropLen, idx: 1 });
         }
     }
+    // a payload that is flagged as UTF-8 (Payload Format Indicator = 1) in a PUBLISH or in the will
+    if let Body::Publish { props: Some(ps), .. } = &w.body {
+        if ps.get(0x01) == Some(&PVal::Byte(1)) {
+            v.push(Site { entry: Entry::PayloadFormat, idx: 0 });
+        }
+    }
+    if let Body::Connect { will: Some(wl), .. } = &w.body {
+        if wl.props.as_ref().and_then(|ps| ps.get(0x01)) == Some(&PVal::Byte(1)) {
+            v.push(Site { entry: Entry::PayloadFormat, idx: 1 });
+        }
+    }
     v.push(Site { entry: Entry::RlStrict, idx: 0 });
     v.push(Site { entry: Entry::RlStrict, idx: 1 });
     v.push(Site { entry: Entry::InnerPastEnd, idx: 0 });
@@ -890,6 +906,37 @@ pub fn apply_ex(orig: &WPacket, site: &Site, t: &mut Tape, out_w: &mut Option<WP
             }
             ps.declared = Some(actual - 1);
             (all(ExpErr::InvalidPropertyLength(actual - 1)), format!("property length declared {} for {} bytes", actual - 1, actual))
+        }
+        Entry::PayloadFormat => {
+            // one of the ill-formed UTF-8 shapes at the front, in the middle or at the end of the payload
+            let shapes: [&[u8]; 8] = [b"\xFF", b"\x80", b"\xC3", b"\xE2\x82", b"\xF0\x9F\x98", b"\xED\xA0\x80", b"\xC0\x80", b"\xF4\x90\x80\x80"];
+            let bad = shapes[t.pick(shapes.len())];
+            let payload: &mut Vec<u8> = match (&mut w.body, site.idx) {
+                (Body::Publish { payload, .. }, 0) => payload,
+                (Body::Connect { will: Some(wl), .. }, 1) => &mut wl.payload,
+                _ => return None,
+            };
+            if payload.len() + bad.len() > 65_000 {
+                return None;
+            }
+            let at = match t.pick(3) {
+                0 => 0,
+                1 => payload.len(),
+                _ => {
+                    // a character boundary in the middle (the payload is valid UTF-8 so far)
+                    let mut k = payload.len() / 2;
+                    while k > 0 && (payload[k] & 0xC0) == 0x80 {
+                        k -= 1;
+                    }
+                    k
+                }
+            };
+            // a truncated sequence only stays ill-formed where no continuation byte follows it
+            let at = if matches!(bad[0], 0xC3 | 0xE2 | 0xF0) { payload.len() } else { at };
+            for (i, b) in bad.iter().enumerate() {
+                payload.insert(at + i, *b);
+            }
+            (all(ExpErr::InvalidPayloadFormat), format!("{} payload flagged as UTF-8 with the ill-formed bytes {} at offset {}", if site.idx == 0 { "PUBLISH" } else { "will" }, crate::model::hex(bad), at))
         }
         Entry::PropBool => {
             let in_will = site.idx >= 1000;
